@@ -68,10 +68,14 @@ def _messages(res, msgs, family):
             comp = str(F.compute_checksum(m, st, ln))
         except Exception as ex:  # noqa
             comp = type(ex).__name__
-        impl = [str(reg), str(f.checksum), "1" if f.is_good else "0", comp]
         case = {"op": "fcs.msg", "hex": m.hex(), "start": st, "len": ln}
         res.evaluations += 1
         res.nontriv((m, st, ln))
+        try:
+            impl = [str(reg), str(f.checksum), "1" if f.is_good else "0", comp]
+        except Exception as ex:  # noqa
+            res.prop_failure(case, f"checksum / is_good raised {type(ex).__name__} after {len(m)} octets (RFC 1662 FCS of these octets: {a[5]})", family)
+            continue
         if impl != a[:4]:
             res.tie_break(case, impl, a[:4], family)
         spec_reg, spec_fcs, spec_win = a[4], a[5], a[6]
